@@ -41,7 +41,7 @@ def make_lit(kind, k):
     if kind == "lang":
         return ["lit", ["hola", "b c", "x", "y z"][k], LANGSTRING, "en"]
     if kind == "lang2":
-        return ["lit", ["colour", "b", "x", "y"][k], LANGSTRING, "en-GB"]
+        return ["lit", ["colour", "b", "x", "y"][k], LANGSTRING, ["en-GB", "es-419", "de-CH-1996", "zh-Hant-TW"][k]]
     if kind == "integer":
         return ["lit", ["0", "1", "-5", "+3"][k], XSD + "integer", ""]
     if kind == "int":
@@ -305,6 +305,8 @@ def consistent(draw, max_classes=3, max_inst=4, max_props=3, bnode_classes=False
 NS_DICT_CHOICES = [
     # namespaces that end neither in '/' nor in '#' (OBO style: http://purl.obolibrary.org/obo/RO_)
     {"http://ex.org/n": "nn", "http://ex.org/ns/p": "pp", "http://ex.org/C": "cc"},
+    # the namespace is given without its final separator: the local part would begin with '/' or '#' (no prefixed name possible)
+    {"http://ex.org/ns": "nsx", "http://other.org/v": "vx", "http://ex.org": "exx"},
     {"http://ex.org/ns/": "ns", "http://ex.org/ns/n": "nsn", "http://other.org/v#C": "vc", "https://data.example/n": "dn"},
     {"http://ex.org/": "ex", "http://www.w3.org/2001/XMLSchema#": "xsd", "http://www.w3.org/1999/02/22-rdf-syntax-ns#": "rdf"},
     {"http://ex.org/ns/": "ns", "http://other.org/v#": "v", "https://data.example/": "d"},
